@@ -2,10 +2,10 @@ SPECIFICATION SpecMC
 CONSTANTS
   MaxSteps = 3
   Depth = 0
-  OpNames = {"AddHeading", "SetStyle", "AddStyle", "ModifyStyle", "RemoveStyle", "GenerateTOC", "AutoGenerateTOC", "UpdateTOC", "TOCEntry", "ApplyTableStyle", "CreateCustomTableStyle", "AddListItem", "AddNote", "RemoveNote", "Save", "Reopen", "OpenForeign", "Markdown", "AddParagraph"}
+  OpNames = {"AddHeading", "SetStyle", "AddStyle", "ModifyStyle", "RemoveStyle", "GenerateTOC", "AutoGenerateTOC", "UpdateTOC", "ApplyTableStyle", "CreateCustomTableStyle", "AddListItem", "AddNote", "Save", "Reopen", "OpenForeign", "Markdown"}
   Lv = {2, 9}
   Maxes = {3}
-  StyIds = {"Quote", "C1", "Zz9"}
+  StyIds = {"C1", "Zz9"}
   AddIds = {"C1"}
   ModIds = {"Heading2", "C1"}
   RmIds = {"Heading2", "C1"}
@@ -14,8 +14,8 @@ CONSTANTS
   ListTypes = {"bullet", "number"}
   Shapes = {"lists", "toc"}
   Kinds = {"all"}
-  ViasC = {"AddStyle", "CreateQuickStyle"}
-  HowsC = {"mutate", "replace"}
+  ViasC = {"CreateQuickStyle"}
+  HowsC = {"mutate"}
   FreshC = {TRUE}
 INVARIANTS Inv_Defined Inv_Wf Inv_Pending
 PROPERTIES Act_Save Act_Keep
